@@ -2,8 +2,8 @@
   C01 — context-free policies compute the documented statistic of each arm's history.
   (The refinement is proved for every policy kind, the linear ones included; C02, C06, C07 reuse it.)
 -/
-import MabModel.Lemmas.Refine
-import MabModel.Spec.Log
+import MabModel.Lemmas.RefineSteps
+import MabModel.Props.Real
 open Py
 set_option linter.unusedSectionVars false
 set_option linter.unusedSimpArgs false
@@ -11,257 +11,6 @@ set_option linter.unusedVariables false
 
 namespace Mab
 variable {α : Type} [DecidableEq α]
-
-/-- the statistic a policy of this kind holds for an arm whose log is `log`, `N` rows since fit -/
-def statOf (s : LP α) (N : Nat) (log : List (Rat × Vec)) : ArmSt α :=
-  fitRec s.kind N log (freshRec s.kind s.numFeatures s.k1fixed)
-
-/-- The refinement relation between a policy state and the specification state. -/
-structure Ref (s : LP α) (t : Spec α) : Prop where
-  wf : s.WF
-  arms : s.arms = t.arms
-  total : s.kind = .random ∨ s.total = t.N
-  entry : ∀ a ∈ s.arms, (s.st.get? a).map (·.strip s.kind) = some ((statOf s t.N (t.log a)).strip s.kind)
-
-theorem ref_init (kind : Kind) (arms : List α) (k1 : Bool) (h : arms.Nodup) :
-    Ref (LP.init kind arms none k1) (Spec.init arms) := by
-  refine ⟨⟨by simp [LP.init], h⟩, rfl, Or.inr rfl, ?_⟩
-  intro a ha
-  have ha' : a ∈ arms := ha
-  simp only [LP.init, Spec.init, statOf, fitRec_nil]
-  rw [Dict.get?_ofFn _ _ _ ha']
-  rfl
-
-/-- `fit` at one arm: the record is the arm's rows of the batch trained into a fresh record. -/
-theorem fit_get (s : LP α) (b : Batch α) (w : Option Nat) (h : s.WF) (hk : s.kind ≠ .random)
-    (hb : s.binz = none) (a : α) (ha : a ∈ s.arms) :
-    ((s.fit b w).st.get? a).map (·.strip s.kind) =
-      some ((fitRec s.kind b.length (rowsOf b a) (freshRec s.kind (s.nfFor b w) s.k1fixed)).strip s.kind) := by
-  have hbin : s.binarize b = b := by simp [LP.binarize, hb]
-  have hfit : s.fit b w = ((s.resetFor b w).parallelFit b).post b false := by
-    unfold LP.fit; rw [hbin]; cases hkk : s.kind <;> simp_all
-  have hwf : (s.resetFor b w).WF := ⟨by simp [LP.resetFor, h.keys], h.nodup⟩
-  rw [hfit]
-  have hpk : ((s.resetFor b w).parallelFit b).kind = s.kind := by rw [parallelFit_closed _ _ hwf]; rfl
-  have := post_get_strip ((s.resetFor b w).parallelFit b) b false a
-  rw [hpk] at this
-  rw [this, parallelFit_closed _ _ hwf]
-  simp only [LP.resetFor, Dict.get?_mapKV, Option.map_map]
-  have hin : (s.st.get? a).isSome := by rw [Dict.get?_isSome_iff, h.keys]; exact ha
-  obtain ⟨r, hr⟩ := Option.isSome_iff_exists.mp hin
-  rw [hr]
-  simp only [Option.map_some, Function.comp]
-  rw [fitRec_strip, resetRec_strip, ← fitRec_strip]
-
-theorem partialFit_get (s : LP α) (b : Batch α) (h : s.WF) (hk : s.kind ≠ .random)
-    (hb : s.binz = none) (a : α) :
-    ((s.partialFit b).st.get? a).map (·.strip s.kind) =
-      (s.st.get? a).map fun r => (fitRec s.kind (s.total + b.length) (rowsOf b a) r).strip s.kind := by
-  have hbin : s.binarize b = b := by simp [LP.binarize, hb]
-  have hfit : s.partialFit b = ((s.bumpTotal b.length).parallelFit b).post b true := by
-    unfold LP.partialFit; rw [hbin]; cases hkk : s.kind <;> simp_all
-  have hwf : (s.bumpTotal b.length).WF := ⟨h.keys, h.nodup⟩
-  rw [hfit]
-  have hpk : ((s.bumpTotal b.length).parallelFit b).kind = s.kind := by rw [parallelFit_closed _ _ hwf]; rfl
-  have := post_get_strip ((s.bumpTotal b.length).parallelFit b) b true a
-  rw [hpk] at this
-  rw [this, parallelFit_closed _ _ hwf]
-  simp only [LP.bumpTotal, Dict.get?_mapKV, Option.map_map]
-  rfl
-
-end Mab
-
-namespace Mab
-variable {α : Type} [DecidableEq α]
-
-theorem fit_fields (s : LP α) (b : Batch α) (w : Option Nat) (hk : s.kind ≠ .random) (hb : s.binz = none) :
-    (s.fit b w).kind = s.kind ∧ (s.fit b w).arms = s.arms ∧ (s.fit b w).total = b.length ∧
-    (s.fit b w).numFeatures = s.nfFor b w ∧ (s.fit b w).k1fixed = s.k1fixed ∧ (s.fit b w).binz = s.binz ∧
-    (s.fit b w).st.keys = s.st.keys := by
-  have hbin : s.binarize b = b := by simp [LP.binarize, hb]
-  have hfit : s.fit b w = ((s.resetFor b w).parallelFit b).post b false := by
-    unfold LP.fit; rw [hbin]; cases hkk : s.kind <;> simp_all
-  rw [hfit, post_kind, post_arms, post_total, post_numFeatures, post_k1, post_binz, post_keys]
-  have e := parallelFitIn_eq (s.resetFor b w) b (s.resetFor b w).arms
-  unfold LP.parallelFit
-  rw [e]
-  refine ⟨rfl, rfl, rfl, rfl, rfl, rfl, ?_⟩
-  -- keys: a fold of `modify` keeps the keys
-  have : ∀ (l : List α) (d : Dict α (ArmSt α)) (f : α → ArmSt α → ArmSt α),
-      (l.foldl (fun d a => d.modify a (f a)) d).keys = d.keys := by
-    intro l; induction l with
-    | nil => intro d f; rfl
-    | cons x l ih => intro d f; simp only [List.foldl_cons]; rw [ih]; simp
-  simp only [this]
-  simp [LP.resetFor]
-
-theorem partialFit_fields (s : LP α) (b : Batch α) (hk : s.kind ≠ .random) (hb : s.binz = none) :
-    (s.partialFit b).kind = s.kind ∧ (s.partialFit b).arms = s.arms ∧
-    (s.partialFit b).total = s.total + b.length ∧
-    (s.partialFit b).numFeatures = s.numFeatures ∧ (s.partialFit b).k1fixed = s.k1fixed ∧
-    (s.partialFit b).binz = s.binz ∧ (s.partialFit b).st.keys = s.st.keys := by
-  have hbin : s.binarize b = b := by simp [LP.binarize, hb]
-  have hfit : s.partialFit b = ((s.bumpTotal b.length).parallelFit b).post b true := by
-    unfold LP.partialFit; rw [hbin]; cases hkk : s.kind <;> simp_all
-  rw [hfit, post_kind, post_arms, post_total, post_numFeatures, post_k1, post_binz, post_keys]
-  have e := parallelFitIn_eq (s.bumpTotal b.length) b (s.bumpTotal b.length).arms
-  unfold LP.parallelFit
-  rw [e]
-  refine ⟨rfl, rfl, rfl, rfl, rfl, rfl, ?_⟩
-  have : ∀ (l : List α) (d : Dict α (ArmSt α)) (f : α → ArmSt α → ArmSt α),
-      (l.foldl (fun d a => d.modify a (f a)) d).keys = d.keys := by
-    intro l; induction l with
-    | nil => intro d f; rfl
-    | cons x l ih => intro d f; simp only [List.foldl_cons]; rw [ih]; simp
-  simp only [this]
-  rfl
-
-theorem statOf_random (s : LP α) (hk : s.kind = .random) (N : Nat) (log : List (Rat × Vec)) :
-    statOf s N log = freshRec s.kind s.numFeatures s.k1fixed := by
-  simp [statOf, hk, fitRec]
-
-theorem ref_fit (s : LP α) (t : Spec α) (b : Batch α) (w : Option Nat) (hb : s.binz = none) (h : Ref s t) :
-    Ref (s.fit b w) (t.step (.fit b w)) := by
-  by_cases hk : s.kind = .random
-  · have e : s.fit b w = s := by simp [LP.fit, hk]
-    rw [e]
-    refine ⟨h.wf, h.arms, Or.inl hk, ?_⟩
-    intro a ha
-    rw [h.entry a ha, statOf_random s hk, statOf_random s hk]
-  · obtain ⟨f1, f2, f3, f4, f5, f6, f7⟩ := fit_fields s b w hk hb
-    refine ⟨⟨by rw [f7, f2]; exact h.wf.keys, by rw [f2]; exact h.wf.nodup⟩, by rw [f2]; exact h.arms,
-            Or.inr (by rw [f3]; rfl), ?_⟩
-    intro a ha
-    rw [f2] at ha
-    have := fit_get s b w h.wf hk hb a ha
-    simp only [statOf, f1, f4, f5, Spec.step]
-    exact this
-
-theorem ref_partialFit (s : LP α) (t : Spec α) (b : Batch α) (hb : s.binz = none) (h : Ref s t) :
-    Ref (s.partialFit b) (t.step (.partialFit b)) := by
-  by_cases hk : s.kind = .random
-  · have e : s.partialFit b = s := by simp [LP.partialFit, hk]
-    rw [e]
-    refine ⟨h.wf, h.arms, Or.inl hk, ?_⟩
-    intro a ha
-    rw [h.entry a ha, statOf_random s hk, statOf_random s hk]
-  · obtain ⟨f1, f2, f3, f4, f5, f6, f7⟩ := partialFit_fields s b hk hb
-    have htot : s.total = t.N := by
-      rcases h.total with e | e
-      · exact absurd e hk
-      · exact e
-    refine ⟨⟨by rw [f7, f2]; exact h.wf.keys, by rw [f2]; exact h.wf.nodup⟩, by rw [f2]; exact h.arms,
-            Or.inr (by rw [f3, htot]; rfl), ?_⟩
-    intro a ha
-    rw [f2] at ha
-    have hg := partialFit_get s b h.wf hk hb a
-    have he := h.entry a ha
-    simp only [statOf, f1, f4, f5, Spec.step] at he ⊢
-    rw [hg]
-    cases hr : s.st.get? a with
-    | none => rw [hr] at he; simp at he
-    | some r =>
-      rw [hr] at he
-      simp only [Option.map_some, Option.some.injEq] at he ⊢
-      rw [fitRec_strip, he, ← fitRec_strip, fitRec_append, htot]
-
-end Mab
-
-namespace Mab
-variable {α : Type} [DecidableEq α]
-
-/-- a state that differs from `s` only in stripped-away parts of the records refines the same spec -/
-theorem ref_transfer (s s' : LP α) (t : Spec α) (h : Ref s t)
-    (hk : s'.kind = s.kind) (ha : s'.arms = s.arms) (ht : s'.total = s.total)
-    (hn : s'.numFeatures = s.numFeatures) (h1 : s'.k1fixed = s.k1fixed) (hkeys : s'.st.keys = s.st.keys)
-    (hg : ∀ x, (s'.st.get? x).map (·.strip s.kind) = (s.st.get? x).map (·.strip s.kind)) : Ref s' t := by
-  refine ⟨⟨by rw [hkeys, ha]; exact h.wf.keys, by rw [ha]; exact h.wf.nodup⟩, by rw [ha]; exact h.arms,
-          by rw [hk, ht]; exact h.total, ?_⟩
-  intro x hx
-  rw [ha] at hx
-  simp only [statOf, hk, hn, h1]
-  rw [hg x]
-  exact h.entry x hx
-
-theorem ref_expOp (s : LP α) (t : Spec α) (h : Ref s t) : Ref s.expOp t := by
-  obtain ⟨st', e⟩ := expOp_onlySt s
-  have hk := expOp_keys s
-  have hg := fun x => expOp_get_strip s x
-  rw [e] at hk hg ⊢
-  exact ref_transfer s _ t h rfl rfl rfl rfl rfl hk hg
-
-theorem ref_normalize (s : LP α) (t : Spec α) (h : Ref s t) : Ref s.normalize t := by
-  obtain ⟨st', e⟩ := normalize_onlySt s
-  have hk := normalize_keys s
-  have hg := fun x => normalize_get_strip s x
-  rw [e] at hk hg ⊢
-  exact ref_transfer s _ t h rfl rfl rfl rfl rfl hk hg
-
-theorem ref_insertArm (s : LP α) (t : Spec α) (a : α) (ha : a ∉ s.arms) (h : Ref s t) :
-    Ref (s.insertArm a none) { t with arms := t.arms ++ [a], log := fun x => if x = a then [] else t.log x } := by
-  have hnk : a ∉ s.st.keys := by rw [h.wf.keys]; exact ha
-  have hk : (s.insertArm a none).kind = s.kind := rfl
-  refine ⟨⟨?_, ?_⟩, ?_, h.total, ?_⟩
-  · show (s.st.set a _).keys = s.arms ++ [a]
-    rw [Dict.keys_set_not_mem _ _ _ hnk, h.wf.keys]
-  · show (s.arms ++ [a]).Nodup
-    exact List.nodup_append.mpr ⟨h.wf.nodup, by simp, by intro x hx y hy; simp at hy; subst hy; intro e; subst e; exact ha hx⟩
-  · show s.arms ++ [a] = t.arms ++ [a]
-    rw [h.arms]
-  · intro x hx
-    have hx2 : x ∈ s.arms ++ [a] := hx
-    show ((s.st.set a (freshRec s.kind s.numFeatures s.k1fixed)).get? x).map (·.strip s.kind) = _
-    simp only [statOf]
-    show _ = some ((fitRec s.kind t.N (if x = a then [] else t.log x) (freshRec s.kind s.numFeatures s.k1fixed)).strip s.kind)
-    by_cases hxa : x = a
-    · subst hxa
-      rw [Dict.get?_set_eq]
-      simp [fitRec_nil]
-    · rw [Dict.get?_set_ne _ _ _ _ hxa]
-      have hx' : x ∈ s.arms := by
-        rcases List.mem_append.mp hx2 with e | e
-        · exact e
-        · simp at e; exact absurd e hxa
-      simp only [hxa, if_false]
-      exact h.entry x hx'
-
-theorem ref_dropArm (s : LP α) (t : Spec α) (a : α) (h : Ref s t) :
-    Ref (s.dropArm a) { t with arms := t.arms.filter (· != a) } := by
-  refine ⟨⟨?_, h.wf.nodup.filter _⟩, ?_, h.total, ?_⟩
-  · show (s.st.pop a).keys = s.arms.filter (· != a)
-    rw [Dict.keys_pop, h.wf.keys]
-  · show s.arms.filter (· != a) = t.arms.filter (· != a)
-    rw [h.arms]
-  · intro x hx
-    have hx' : x ∈ s.arms ∧ x ≠ a := by
-      have : x ∈ s.arms.filter (· != a) := hx
-      simpa using this
-    show ((s.st.pop a).get? x).map (·.strip s.kind) = _
-    rw [Dict.get?_pop_ne _ _ _ hx'.2]
-    exact h.entry x hx'.1
-
-theorem ref_addArm (s : LP α) (t : Spec α) (a : α) (h : Ref s t) :
-    Ref (s.stepOp (.addArm a)) (t.step (.addArm a)) := by
-  by_cases ha : a ∈ s.arms
-  · have : a ∈ t.arms := h.arms ▸ ha
-    simp only [LP.stepOp, Spec.step, ha, this, if_true]; exact h
-  · have hat : a ∉ t.arms := h.arms ▸ ha
-    simp only [LP.stepOp, Spec.step, ha, hat, if_false]
-    exact ref_expOp _ _ (ref_insertArm s t a ha h)
-
-theorem ref_removeArm (s : LP α) (t : Spec α) (a : α) (h : Ref s t) :
-    Ref (s.stepOp (.removeArm a)) (t.step (.removeArm a)) := by
-  by_cases ha : a ∈ s.arms
-  · have hat : a ∈ t.arms := h.arms ▸ ha
-    simp only [LP.stepOp, Spec.step, ha, hat, if_true]
-    exact ref_normalize _ _ (ref_expOp _ _ (ref_dropArm s t a h))
-  · have hat : a ∉ t.arms := h.arms ▸ ha
-    simp only [LP.stepOp, Spec.step, ha, hat, if_false]; exact h
-
-theorem expOp_binz (s : LP α) : s.expOp.binz = s.binz := by
-  obtain ⟨st', e⟩ := expOp_onlySt s; rw [e]
-theorem normalize_binz (s : LP α) : s.normalize.binz = s.binz := by
-  obtain ⟨st', e⟩ := normalize_onlySt s; rw [e]
 
 /-- one step of any operation preserves the refinement (no binarizer: C14 treats those) -/
 theorem ref_step (s : LP α) (t : Spec α) (op : LPOp α) (hb : s.binz = none) (h : Ref s t) :
@@ -304,5 +53,287 @@ theorem cf_refines_log (kind : Kind) (arms : List α) (k1 : Bool) (hn : arms.Nod
       obtain ⟨h1, h2⟩ := ref_step s t op hb h
       exact ih _ _ h2 h1
   exact key ops _ _ rfl (ref_init kind arms k1 hn)
+
+end Mab
+
+namespace Mab
+variable {α : Type} [DecidableEq α]
+
+/-! ### the documented statistics, written out -/
+
+def lsum (log : List (Rat × Vec)) : Rat := rsum log
+def lmean (log : List (Rat × Vec)) : Rat := rsum log / (log.length : Rat)
+
+/-- what the records of an arm with log `log` look like, per policy (fresh record trained once) -/
+theorem stat_greedy (eps : Rat) (N : Nat) (log : List (Rat × Vec)) :
+    let r : ArmSt α := fitRec (.greedy eps) N log {}
+    r.sum = (if log.length = 0 then 0 else lsum log) ∧ r.cnt = log.length ∧
+    r.exp = (if log.length = 0 then .val 0 else .val (lmean log)) := by
+  by_cases h : log.length = 0
+  · have : log = [] := List.eq_nil_of_length_eq_zero h
+    subst this; simp [fitRec]
+  · simp [fitRec, h, lsum, lmean, Rat.zero_add]
+
+theorem stat_ucb (alpha : Rat) (N : Nat) (log : List (Rat × Vec)) :
+    let r : ArmSt α := fitRec (.ucb alpha) N log {}
+    r.cnt = log.length ∧
+    r.exp = (if log.length = 0 then .val 0 else .ucb (lmean log) alpha N log.length) := by
+  by_cases h : log.length = 0
+  · have : log = [] := List.eq_nil_of_length_eq_zero h
+    subst this; simp [fitRec]
+  · simp [fitRec, h, lmean, Rat.zero_add]
+
+theorem stat_softmax (tau : Rat) (N : Nat) (log : List (Rat × Vec)) :
+    let r : ArmSt α := fitRec (.softmax tau) N log {}
+    r.cnt = log.length ∧ r.mean = (if log.length = 0 then 0 else lmean log) := by
+  by_cases h : log.length = 0
+  · have : log = [] := List.eq_nil_of_length_eq_zero h
+    subst this; simp [fitRec]
+  · simp [fitRec, h, lmean, Rat.zero_add]
+
+/-- Thompson Sampling: one plus successes, one plus failures -/
+theorem stat_thompson (N : Nat) (log : List (Rat × Vec)) :
+    let r : ArmSt α := fitRec .thompson N log {}
+    r.succ = 1 + lsum log ∧ r.fail = 1 + ((log.length : Rat) - lsum log) := by
+  simp [fitRec, lsum]
+
+theorem stat_popularity (N : Nat) (log : List (Rat × Vec)) :
+    let r : ArmSt α := fitRec .popularity N log {}
+    r.cnt = log.length ∧ popMean r = (if log.length = 0 then 0 else lmean log) := by
+  by_cases h : log.length = 0
+  · have : log = [] := List.eq_nil_of_length_eq_zero h
+    subst this; simp [fitRec, popMean]
+  · simp [fitRec, h, lmean, popMean, Rat.zero_add]
+
+theorem stat_random (N : Nat) (log : List (Rat × Vec)) :
+    (fitRec .random N log {} : ArmSt α) = {} := by simp [fitRec]
+
+/-- **C01 (statistics).**  After *any* history, the record of every current arm of a context-free
+    policy carries exactly the statistics of a fresh record trained once on the arm's log, with `N`
+    the number of rows since the most recent fit (in particular `N` is current for arms that did not
+    occur in the last batch, and an arm without observations holds the neutral values). -/
+theorem cf_statistics (kind : Kind) (hlin : kind.isLinear = false) (arms : List α) (hn : arms.Nodup)
+    (ops : List (LPOp α)) (a : α) (ha : a ∈ ((LP.init kind arms none false).run ops).arms) :
+    ∃ r : ArmSt α, ((LP.init kind arms none false).run ops).st.get? a = some r ∧
+      let spec : ArmSt α := fitRec kind ((Spec.init arms).run ops).N (((Spec.init arms).run ops).log a) {}
+      r.sum = spec.sum ∧ r.cnt = spec.cnt ∧ r.mean = spec.mean ∧ r.succ = spec.succ ∧ r.fail = spec.fail ∧
+      (kind.localExp = true → r.exp = spec.exp) := by
+  have h := cf_refines_log kind arms false hn ops
+  have hk : ((LP.init kind arms none false).run ops).kind = kind := run_kind _ _
+  have he := h.entry a ha
+  simp only [statOf] at he
+  rw [hk] at he
+  have hfresh : ∀ nf k1, (freshRec kind nf k1 : ArmSt α) = {} := by
+    intro nf k1; simp [freshRec, hlin]
+  rw [hfresh] at he
+  cases hr : ((LP.init kind arms none false).run ops).st.get? a with
+  | none => rw [hr] at he; simp at he
+  | some r =>
+    rw [hr] at he
+    simp only [Option.map_some, Option.some.injEq] at he
+    refine ⟨r, rfl, ?_⟩
+    have e1 := congrArg ArmSt.sum he
+    have e2 := congrArg ArmSt.cnt he
+    have e3 := congrArg ArmSt.mean he
+    have e4 := congrArg ArmSt.succ he
+    have e5 := congrArg ArmSt.fail he
+    have e6 := congrArg ArmSt.exp he
+    simp only [ArmSt.strip] at e1 e2 e3 e4 e5 e6
+    refine ⟨e1, e2, e3, e4, e5, ?_⟩
+    intro hl
+    simpa [hl] using e6
+
+/-- **C01, UCB1 written out**: `mean + α·sqrt(2 ln N / n)` with the current `N`; 0 without data. -/
+theorem cf_expectation_ucb (alpha : Rat) (arms : List α) (hn : arms.Nodup) (ops : List (LPOp α))
+    (a : α) (ha : a ∈ ((LP.init (.ucb alpha) arms none false).run ops).arms) :
+    let log := ((Spec.init arms).run ops).log a
+    (((LP.init (.ucb alpha) arms none false).run ops).st.get? a).map (·.exp) =
+      some (if log.length = 0 then .val 0 else .ucb (lmean log) alpha ((Spec.init arms).run ops).N log.length) := by
+  intro log
+  obtain ⟨r, hr, _, _, _, _, _, h6⟩ := cf_statistics (.ucb alpha) rfl arms hn ops a ha
+  rw [hr]
+  simp only [Option.map_some, Option.some.injEq]
+  rw [h6 rfl]
+  exact (stat_ucb (α := α) alpha _ log).2
+
+/-- **C01, ε-greedy written out**: the running mean of the arm's rewards since the last fit. -/
+theorem cf_expectation_greedy (eps : Rat) (arms : List α) (hn : arms.Nodup) (ops : List (LPOp α))
+    (a : α) (ha : a ∈ ((LP.init (.greedy eps) arms none false).run ops).arms) :
+    let log := ((Spec.init arms).run ops).log a
+    (((LP.init (.greedy eps) arms none false).run ops).st.get? a).map (·.exp) =
+      some (if log.length = 0 then .val 0 else .val (lmean log)) := by
+  intro log
+  obtain ⟨r, hr, _, _, _, _, _, h6⟩ := cf_statistics (.greedy eps) rfl arms hn ops a ha
+  rw [hr]
+  simp only [Option.map_some, Option.some.injEq]
+  rw [h6 rfl]
+  exact (stat_greedy (α := α) eps _ log).2.2
+
+/-- **C01, Thompson Sampling written out**: Beta parameters one-plus-successes / one-plus-failures. -/
+theorem cf_thompson_counts (arms : List α) (hn : arms.Nodup) (ops : List (LPOp α))
+    (a : α) (ha : a ∈ ((LP.init .thompson arms none false).run ops).arms) :
+    let log := ((Spec.init arms).run ops).log a
+    (((LP.init .thompson arms none false).run ops).st.get? a).map (fun r => (r.succ, r.fail)) =
+      some (1 + lsum log, 1 + ((log.length : Rat) - lsum log)) := by
+  intro log
+  obtain ⟨r, hr, _, _, _, h4, h5, _⟩ := cf_statistics .thompson rfl arms hn ops a ha
+  rw [hr]
+  simp only [Option.map_some, Option.some.injEq]
+  rw [h4, h5]
+  have := stat_thompson (α := α) ((Spec.init arms).run ops).N log
+  simp only at this
+  rw [this.1, this.2]
+
+/-- `remove_arm a; add_arm a` leaves the arm with the neutral statistics (empty log). -/
+theorem readd_is_fresh (arms : List α) (ops : List (LPOp α)) (a : α) (hmem : a ∈ ((Spec.init arms).run ops).arms) :
+    ((Spec.init arms).run (ops ++ [.removeArm a, .addArm a])).log a = [] := by
+  simp only [Spec.run, List.foldl_append, List.foldl_cons, List.foldl_nil]
+  have h1 : a ∈ (List.foldl Spec.step (Spec.init arms) ops).arms := hmem
+  simp [Spec.step, h1]
+
+end Mab
+
+namespace Mab
+variable {α : Type} [DecidableEq α]
+
+/-! ### Softmax: the shares are the soft-max of the *current* means of exactly the current arms -/
+
+def SoftInv (tau : Rat) (s : LP α) : Prop := ∀ p ∈ s.st, p.2.exp = .soft s.means tau p.2.mean
+
+theorem means_mapKV_of_mean (d : Dict α (ArmSt α)) (f : α → ArmSt α → ArmSt α)
+    (h : ∀ k r, (f k r).mean = r.mean) : (d.mapKV f).vals.map (·.mean) = d.vals.map (·.mean) := by
+  simp [Dict.mapKV, Dict.vals, List.map_map, Function.comp_def, h]
+
+theorem expOp_softInv (tau : Rat) (s : LP α) (hk : s.kind = .softmax tau) : SoftInv tau s.expOp := by
+  intro p hp
+  unfold LP.expOp at hp ⊢
+  simp only [hk] at hp ⊢
+  simp only [LP.means] at hp ⊢
+  rw [means_mapKV_of_mean _ _ (by intros; rfl)]
+  simp only [Dict.mapKV, List.mem_map] at hp
+  obtain ⟨q, _, rfl⟩ := hp
+  rfl
+
+theorem setTrained_softInv (tau : Rat) (s : LP α) (b : Batch α) (p : Bool) (h : SoftInv tau s) :
+    SoftInv tau (s.setTrained b p) := by
+  intro q hq
+  have hm : (s.setTrained b p).means = s.means := by
+    simp only [LP.means, LP.setTrained]
+    apply means_mapKV_of_mean
+    intro k r; split
+    · split <;> rfl
+    · rfl
+  rw [hm]
+  simp only [LP.setTrained, Dict.mapKV, List.mem_map] at hq
+  obtain ⟨q0, hq0, rfl⟩ := hq
+  have := h q0 hq0
+  simp only
+  split
+  · split <;> exact this
+  · exact this
+
+theorem normalize_softmax (tau : Rat) (s : LP α) (hk : s.kind = .softmax tau) : s.normalize = s := by
+  simp [LP.normalize, hk]
+
+theorem post_softInv (tau : Rat) (s : LP α) (b : Batch α) (p : Bool) (hk : s.kind = .softmax tau) :
+    SoftInv tau (s.post b p) := by
+  unfold LP.post
+  rw [normalize_softmax tau _ (by simp [LP.setTrained, expOp_kind, hk])]
+  exact setTrained_softInv tau _ b p (expOp_softInv tau s hk)
+
+/-- **C01, Softmax**: after any history that contains a `fit`, every current arm's expectation is the
+    max-shifted soft-max share of its *current* mean among the current means of exactly the current
+    arms (so `add_arm` / `remove_arm` re-normalise, and unobserved arms hold the share of mean 0). -/
+theorem softmax_shares (tau : Rat) (s : LP α) (hk : s.kind = .softmax tau) (op : LPOp α)
+    (h : SoftInv tau s ∨ (∃ b w, op = .fit b w)) : SoftInv tau (s.stepOp op) := by
+  cases op with
+  | fit b w =>
+    simp only [LP.stepOp, LP.fit, hk]
+    exact post_softInv tau _ _ _ (by rw [parallelFit_kind]; exact hk)
+  | partialFit b =>
+    simp only [LP.stepOp, LP.partialFit, hk]
+    exact post_softInv tau _ _ _ (by rw [parallelFit_kind]; exact hk)
+  | addArm a =>
+    simp only [LP.stepOp]
+    split
+    · rcases h with h | ⟨b, w, e⟩
+      · exact h
+      · cases e
+    · exact expOp_softInv tau _ hk
+  | removeArm a =>
+    simp only [LP.stepOp]
+    split
+    · unfold LP.removeArm
+      rw [normalize_softmax tau _ (by rw [expOp_kind]; exact hk)]
+      exact expOp_softInv tau _ hk
+    · rcases h with h | ⟨b, w, e⟩
+      · exact h
+      · cases e
+
+/-- the same for whole histories: everything after the first `fit` keeps the invariant -/
+theorem softmax_shares_run (tau : Rat) (arms : List α) (ops₁ ops₂ : List (LPOp α)) (b : Batch α) (w : Option Nat) :
+    SoftInv tau ((LP.init (.softmax tau) arms none false).run (ops₁ ++ [.fit b w] ++ ops₂)) := by
+  have hk1 : ((LP.init (.softmax tau) arms none false).run ops₁).kind = .softmax tau := run_kind _ _
+  have key : ∀ (ops : List (LPOp α)) (s : LP α), s.kind = .softmax tau → SoftInv tau s → SoftInv tau (s.run ops) := by
+    intro ops
+    induction ops with
+    | nil => intro s _ h; exact h
+    | cons op ops ih =>
+      intro s hk h
+      exact ih _ (by rw [stepOp_kind]; exact hk) (softmax_shares tau s hk op (Or.inl h))
+  simp only [LP.run, List.foldl_append, List.foldl_cons, List.foldl_nil]
+  exact key ops₂ _ (by rw [stepOp_kind]; exact hk1)
+    (softmax_shares tau _ hk1 (.fit b w) (Or.inr ⟨b, w, rfl⟩))
+
+/-! ### Popularity: the expectations are the arm means normalised to sum to one -/
+
+theorem list_sum_map_div_rat (l : List Rat) (D : Rat) : (l.map (· / D)).sum = l.sum / D := by
+  induction l with
+  | nil => simp
+  | cons x xs ih => simp [List.sum_cons, ih, add_div]
+
+/-- **C01, Popularity**: `_normalize_expectations` — which closes `fit`, `partial_fit` and `remove_arm` —
+    leaves `mean a / Σ means` (computed from the *raw* means of all current arms) when the means do
+    not sum to zero, and the uniform share otherwise; in the first case the expectations sum to 1. -/
+theorem popularity_normalised (s : LP α) (hk : s.kind = .popularity) :
+    (s.popTotal ≠ 0 →
+      s.normalize.st.vals.map (·.exp) = s.st.vals.map (fun r => Expect.val (popMean r / s.popTotal)) ∧
+      (s.st.vals.map (fun r => popMean r / s.popTotal)).sum = 1) ∧
+    (s.popTotal = 0 →
+      s.normalize.st.vals.map (·.exp) = s.st.vals.map (fun _ => Expect.val (1 / (s.arms.length : Rat)))) := by
+  constructor
+  · intro h
+    constructor
+    · simp [LP.normalize, hk, h, Dict.mapKV, Dict.vals, List.map_map, Function.comp_def]
+    · have := list_sum_map_div_rat (s.st.vals.map popMean) s.popTotal
+      simp only [List.map_map, Function.comp_def] at this
+      rw [this]
+      exact div_self h
+  · intro h
+    simp [LP.normalize, hk, h, Dict.mapKV, Dict.vals, List.map_map, Function.comp_def]
+
+theorem fit_ends_with_normalize (s : LP α) (b : Batch α) (w : Option Nat) (hk : s.kind = .popularity) :
+    ∃ s' : LP α, s'.kind = .popularity ∧ s.fit b w = s'.normalize := by
+  refine ⟨(((s.resetFor (s.binarize b) w).parallelFit (s.binarize b)).expOp).setTrained (s.binarize b) false, ?_, ?_⟩
+  · simp [LP.setTrained, expOp_kind, parallelFit_kind, LP.resetFor, hk]
+  · simp [LP.fit, hk, LP.post]
+
+theorem partialFit_ends_with_normalize (s : LP α) (b : Batch α) (hk : s.kind = .popularity) :
+    ∃ s' : LP α, s'.kind = .popularity ∧ s.partialFit b = s'.normalize := by
+  refine ⟨(((s.bumpTotal (s.binarize b).length).parallelFit (s.binarize b)).expOp).setTrained (s.binarize b) true, ?_, ?_⟩
+  · simp [LP.setTrained, expOp_kind, parallelFit_kind, LP.bumpTotal, hk]
+  · simp [LP.partialFit, hk, LP.post]
+
+/-! ### non-vacuity: a concrete history with an arm-omitting batch, a removed and re-added arm -/
+
+def exampleOps : List (LPOp Nat) :=
+  [.fit [⟨0, 1, []⟩, ⟨0, 0, []⟩, ⟨1, 3, []⟩], .partialFit [⟨0, 1, []⟩], .removeArm 1, .addArm 1,
+   .partialFit [⟨1, 2, []⟩, ⟨2, 5, []⟩]]
+
+example : ((LP.init (.ucb 1) [0, 1] none false).run exampleOps).expDict =
+    [(0, .ucb (2/3) 1 6 3), (1, .ucb 2 1 6 1)] := by decide +kernel
+
+example : (((Spec.init [0, 1]).run exampleOps).log 1).map (·.1) = [2] ∧ ((Spec.init [0, 1]).run exampleOps).N = 6 := by
+  decide +kernel
 
 end Mab
